@@ -1,8 +1,8 @@
 // C17: action trees (tbox::flow) on a real event loop under a virtual monotonic clock (engine H).
 //
-//   harness run <part> <nparts> <hist-depth> <max-weight> <max-composites> <max-depth>
-//   harness replay <hist-depth> <max-weight> <max-composites> <max-depth> <program-index> <history e.g. "start pass pause">
-//   harness list <max-weight> <max-composites> <max-depth>            (print the canonical program order)
+//   harness run <part> <nparts> <hist-depth> <max-weight> <max-composites> <max-depth> [<min-depth>]
+//   harness replay <hist-depth> <max-weight> <max-composites> <max-depth> <program-index> "<history e.g. start pass pause>" [<min-depth>]
+//   harness list <max-weight> <max-composites> <max-depth> [<min-depth>]           (print the canonical program order)
 //
 // PROGRAM = tree of real composites (Sequence x3 modes, Parallel x3, IfElse, IfThen, Switch, Loop x3, LoopIf,
 // Repeat times{1,2} x3, Wrapper x4, Composite) over <=4 harness leaves (ProbeLeaf), optional timeout on the root.
@@ -139,20 +139,27 @@ static std::vector<SpecT> all_specs() {
   return v;
 }
 struct SInfo { Shape s; int leaves, comps, depth; };
-static void gen_children(const std::vector<std::vector<SInfo>> &byd, int d, int arity, int leaves_left, int comps_left, std::vector<SInfo> &cur, std::vector<std::vector<SInfo>> &out) {
-  if ((int)cur.size() == arity) { out.push_back(cur); return; }
+static int weight_of(int comps, int depth, int leaves) { return 2 * (comps - 1) + (depth - 1) + std::max(0, leaves - 2); }
+template <class F> static void gen_children(const std::vector<SInfo> &pool, int arity, int leaves_left, int comps_left, std::vector<int> &cur, F &f) {
+  if ((int)cur.size() == arity) { f(cur); return; }
   int remaining_children = arity - (int)cur.size() - 1;
-  for (auto &c : byd[d]) { if (c.leaves + remaining_children > leaves_left || c.comps > comps_left) continue; cur.push_back(c); gen_children(byd, d, arity, leaves_left - c.leaves, comps_left - c.comps, cur, out); cur.pop_back(); }
+  for (size_t i = 0; i < pool.size(); i++) { const SInfo &c = pool[i]; if (c.comps > comps_left) break;   /* pool is sorted by comps */
+    if (c.leaves + remaining_children > leaves_left) continue; cur.push_back((int)i); gen_children(pool, arity, leaves_left - c.leaves, comps_left - c.comps, cur, f); cur.pop_back(); }
 }
-static std::vector<SInfo> gen_shapes(int maxd, int maxc, int maxl) {   // byd[d] = shapes of depth <= d
+// byd[d] = shapes of depth <= d; at the top level only shapes with weight <= maxw and depth >= mind are materialised
+static std::vector<SInfo> gen_shapes(int maxd, int maxc, int maxl, int maxw, int mind) {
   std::vector<std::vector<SInfo>> byd(maxd + 1); SInfo leaf; leaf.s = Shape{LEAF, 0, 0, {}}; leaf.leaves = 1; leaf.comps = 0; leaf.depth = 0; byd[0].push_back(leaf);
   auto specs = all_specs();
-  for (int d = 1; d <= maxd; d++) { byd[d].push_back(leaf);
-    for (auto &sp : specs) { std::vector<std::vector<SInfo>> tuples; std::vector<SInfo> cur; gen_children(byd, d - 1, sp.arity, maxl, maxc - 1, cur, tuples);
-      for (auto &t : tuples) { SInfo x; x.s = Shape{sp.k, sp.mode, sp.var, {}}; x.leaves = 0; x.comps = 1; x.depth = 0; for (auto &c : t) { x.s.ch.push_back(c.s); x.leaves += c.leaves; x.comps += c.comps; x.depth = std::max(x.depth, c.depth); } x.depth++; byd[d].push_back(x); } } }
+  for (int d = 1; d <= maxd; d++) { byd[d].push_back(leaf); std::stable_sort(byd[d - 1].begin(), byd[d - 1].end(), [](const SInfo &a, const SInfo &b) { return a.comps < b.comps; });
+    const std::vector<SInfo> &pool = byd[d - 1]; bool top = (d == maxd); int cbudget = maxc - 1; if (top) cbudget = std::min(cbudget, (maxw - (d >= 1 ? 0 : 0)) / 2);
+    for (auto &sp : specs) { std::vector<int> cur;
+      auto emit = [&](const std::vector<int> &t) { SInfo x; x.leaves = 0; x.comps = 1; x.depth = 0; for (int i : t) { x.leaves += pool[i].leaves; x.comps += pool[i].comps; x.depth = std::max(x.depth, pool[i].depth); } x.depth++;
+        if (top && (weight_of(x.comps, x.depth, x.leaves) > maxw || x.depth < mind)) return;
+        x.s = Shape{sp.k, sp.mode, sp.var, {}}; for (int i : t) x.s.ch.push_back(pool[i].s); byd[d].push_back(x); };
+      gen_children(pool, sp.arity, maxl, cbudget, cur, emit); } }
   std::vector<SInfo> r; for (auto &x : byd[maxd]) if (x.comps >= 1) r.push_back(x); return r;
 }
-static int shape_weight(const SInfo &x) { return 2 * (x.comps - 1) + (x.depth - 1) + std::max(0, x.leaves - 2); }
+static int shape_weight(const SInfo &x) { return weight_of(x.comps, x.depth, x.leaves); }
 struct Alt { Script s; int w; };
 static std::vector<Alt> alphabet(const Node &n) {
   std::vector<Alt> a; auto add = [&](int out, int delay, int w) { bool succ = (out != oF && out != oN); int nm = (n.under_switch && succ) ? (n.has_b ? 3 : 2) : 1; for (int m = 0; m < nm; m++) a.push_back(Alt{Script{(uint8_t)out, (uint8_t)delay, (uint8_t)m}, w}); };
@@ -164,14 +171,21 @@ static std::vector<Alt> alphabet(const Node &n) {
 }
 struct Family {
   std::vector<SInfo> shapes; std::vector<Program> protos; std::vector<int> sw; int maxw;
-  Family(int maxd, int maxc, int mw) : maxw(mw) {
-    shapes = gen_shapes(maxd, maxc, 4);
-    for (auto &x : shapes) { Program p; p.nleaves = 0; p.timeout = false; flatten(x.s, -1, 0, 0, p, false, false, false); p.sc.assign(p.nleaves, Script{oS, 0, 0}); p.text = prog_text(p, 0); protos.push_back(p); sw.push_back(shape_weight(x)); }
+  Family(int maxd, int maxc, int mw, int mind = 0) : maxw(mw) {
+    shapes = gen_shapes(maxd, maxc, 4, mw, mind);
+    for (auto &x : shapes) { Program p; p.nleaves = 0; p.timeout = false; flatten(x.s, -1, 0, 0, p, false, false, false); p.sc.assign(p.nleaves, Script{oS, 0, 0}); protos.push_back(p); sw.push_back(shape_weight(x)); }
     std::vector<size_t> ord(shapes.size()); for (size_t i = 0; i < ord.size(); i++) ord[i] = i;
     std::stable_sort(ord.begin(), ord.end(), [&](size_t a, size_t b) { if (sw[a] != sw[b]) return sw[a] < sw[b]; return false; });
     std::vector<Program> p2; std::vector<int> w2; for (size_t i : ord) { p2.push_back(protos[i]); w2.push_back(sw[i]); } protos.swap(p2); sw.swap(w2);
   }
-  // calls f(program) for every program in canonical order; f returns false to stop
+  static void set_text(Program &p) { p.text = prog_text(p, 0) + (p.timeout ? " timeout=100ms" : ""); }
+  long total() {    // number of programs of the family (same loops as each(), counted by convolution of the leaf alphabets' weight histograms)
+    long n = 0;
+    for (size_t si = 0; si < protos.size(); si++) { std::vector<long> h(maxw + 1, 0); h[0] = 1;
+      for (auto &nd : protos[si].n) if (nd.k == LEAF) { std::vector<long> a(4, 0); for (auto &al : alphabet(nd)) a[al.w]++; std::vector<long> h2(maxw + 1, 0); for (int i = 0; i <= maxw; i++) for (int j = 0; j < 4 && i + j <= maxw; j++) h2[i + j] += h[i] * a[j]; h.swap(h2); }
+      for (int W = 0; W <= maxw; W++) for (int to = 0; to <= 1; to++) { int rest = W - to - sw[si]; if (rest >= 0) n += h[rest]; } }
+    return n; }
+  // calls f(program) for every program in canonical order (program.text is NOT set: call set_text); f returns false to stop
   template <class F> void each(F f) {
     long index = 0; bool go = true;
     for (int W = 0; W <= maxw && go; W++) for (int to = 0; to <= 1 && go; to++) for (size_t si = 0; si < protos.size() && go; si++) {
@@ -180,7 +194,7 @@ struct Family {
       std::vector<std::vector<Alt>> alts; for (auto &n : p.n) if (n.k == LEAF) alts.push_back(alphabet(n));
       std::function<void(int, int)> rec = [&](int li, int left) {
         if (!go) return;
-        if (li == p.nleaves) { if (left != 0) return; p.index = index++; p.text = prog_text(p, 0) + (p.timeout ? " timeout=100ms" : ""); go = f(p); return; }
+        if (li == p.nleaves) { if (left != 0) return; p.index = index++; go = f(p); return; }
         for (auto &a : alts[li]) { if (a.w > left) continue; p.sc[li] = a.s; rec(li + 1, left - a.w); if (!go) return; } };
       rec(0, rest); }
   }
@@ -353,8 +367,8 @@ struct World {
       if (s == St::kFinished || s == St::kStoped) {
         if (finals[i] != 1) { V(std::string("final-hook-not-run-after-") + (s == St::kFinished ? "finish" : "stop"), "node " + std::to_string(i) + " finals=" + std::to_string(finals[i])); return; }
         std::vector<int> d; descend(i, d);
-        for (int c : d) if (act[c]->isUnderway()) { V(std::string("descendant-left-underway-after-") + (by_timeout[i] ? "timeout-finish" : s == St::kFinished ? "finish" : "stop") + "-of-" + kKind[P.n[i].k],
-              "node " + std::to_string(i) + " is " + sname(s) + " but descendant " + std::to_string(c) + " is " + sname(act[c]->state())); return; }
+        for (int c : d) if (act[c]->isUnderway()) { V(std::string("descendant-left-underway-after-") + (by_timeout[i] ? "timeout-finish" : s == St::kFinished ? "finish" : "stop") + "-of-" + (by_timeout[i] && P.n[i].k != PAR ? "serial-composite" : kKind[P.n[i].k]),   // the serial composites share SerialAssembleAction
+              "node " + std::to_string(i) + "(" + kKind[P.n[i].k] + ") is " + sname(s) + " but descendant " + std::to_string(c) + " is " + sname(act[c]->state())); return; }
       }
       if (s == St::kIdle) { std::vector<int> d; descend(i, d); for (int c : d) if (act[c]->state() != St::kIdle) { V("descendant-not-idle-below-idle-node", "node " + std::to_string(i) + " idle, descendant " + std::to_string(c) + " " + sname(act[c]->state())); return; } }
       if (s == St::kFinished && P.n[i].k != LEAF && !by_timeout[i] && !mon[i].done) { Mon &m = mon[i]; m.done = true;
@@ -565,21 +579,21 @@ int main(int argc, char **argv) {
   hx::install_crash_reporter("C17-crash");
   g_null = fopen("/dev/null", "w");
   g_loop = event::Loop::New(); g_cl = static_cast<event::CommonLoop *>(g_loop);
-  if (mode == "list") { Family fam(atoi(argv[4]), atoi(argv[3]), atoi(argv[2])); long n = 0; std::map<int, long> perw; fam.each([&](const Program &p) { if (n < 100000) printf("%ld w=%d %s\n", p.index, p.weight, p.text.c_str()); n++; perw[p.weight]++; return true; });
-    printf("shapes=%zu programs=%ld\n", fam.shapes.size(), n); for (auto &kv : perw) printf("weight %d: %ld programs\n", kv.first, kv.second); return 0; }
-  if (mode == "replay") { Family fam(atoi(argv[5]), atoi(argv[4]), atoi(argv[3])); long want = atol(argv[6]); std::vector<Op> h; std::string hs = argc > 7 ? argv[7] : ""; size_t p = 0;
+  if (mode == "list") { Family fam(atoi(argv[4]), atoi(argv[3]), atoi(argv[2]), argc > 5 ? atoi(argv[5]) : 0); long n = 0; std::map<int, long> perw; fam.each([&](Program &p) { if (n < 100000) { Family::set_text(p); printf("%ld w=%d %s\n", p.index, p.weight, p.text.c_str()); } n++; perw[p.weight]++; return true; });
+    printf("shapes=%zu programs=%ld total()=%ld\n", fam.shapes.size(), n, fam.total()); for (auto &kv : perw) printf("weight %d: %ld programs\n", kv.first, kv.second); return 0; }
+  if (mode == "replay") { Family fam(atoi(argv[5]), atoi(argv[4]), atoi(argv[3]), argc > 8 ? atoi(argv[8]) : 0); long want = atol(argv[6]); std::vector<Op> h; std::string hs = argc > 7 ? argv[7] : ""; size_t p = 0;
     while (p < hs.size()) { size_t q = hs.find(' ', p); if (q == std::string::npos) q = hs.size(); std::string tok = hs.substr(p, q - p); for (int k = 0; k < 7; k++) if (tok == kOp[k]) h.push_back(Op{k}); p = q + 1; }
-    fam.each([&](const Program &P) { if (P.index != want) return true; std::string viol, trace; HInfo f; std::string c = evaluate(P, h, viol, &f, &trace);
+    fam.each([&](Program &P) { if (P.index != want) return true; Family::set_text(P); std::string viol, trace; HInfo f; std::string c = evaluate(P, h, viol, &f, &trace);
       printf("program#%ld %s\nhistory: %s\ntrace: %s\ncanon: %s\nviolation: %s\n", P.index, P.text.c_str(), hist_text(h).c_str(), trace.c_str(), c.c_str(), viol.empty() ? "none" : viol.c_str()); return false; });
     return 0; }
-  int part = atoi(argv[2]), nparts = atoi(argv[3]); size_t depth = (size_t)atoi(argv[4]); int maxw = atoi(argv[5]), maxc = atoi(argv[6]), maxd = atoi(argv[7]);
+  int part = atoi(argv[2]), nparts = atoi(argv[3]); size_t depth = (size_t)atoi(argv[4]); int maxw = atoi(argv[5]), maxc = atoi(argv[6]), maxd = atoi(argv[7]), mind = argc > 8 ? atoi(argv[8]) : 0;
   const char *e = getenv("VERIF_DEADLINE_S"); g_deadline = real_now() + (e ? atof(e) : 600);
-  Family fam(maxd, maxc, maxw);
-  long last_index = -1, total = 0, first_skipped = -1; int last_weight = -1; long samples = 0;
-  fam.each([&](const Program &P) {
-    total++;
+  Family fam(maxd, maxc, maxw, mind);
+  long last_index = -1, total = fam.total(), first_skipped = -1; int last_weight = -1; long samples = 0;
+  fam.each([&](Program &P) {
     if (P.index % nparts != part) return true;
-    if (g_stop) { if (first_skipped < 0) first_skipped = P.index; return true; }   // keep counting the family
+    if (g_stop) { if (first_skipped < 0) first_skipped = P.index; return false; }
+    Family::set_text(P);
     if (samples < 2 && P.index >= nparts * 3) { samples++; std::string v, t; HInfo f; std::vector<Op> h; h.push_back(Op{0}); h.push_back(Op{5}); h.push_back(Op{1}); h.push_back(Op{5}); std::string c = evaluate(P, h, v, &f, &t); printf("@SAMPLE program#%ld %s ; history: %s ; trace: %s\n", P.index, P.text.c_str(), hist_text(h).c_str(), t.substr(0, 400).c_str()); g_out_lines.clear(); }
     explore_program(P, depth);
     if (g_stop) { if (first_skipped < 0) first_skipped = P.index; } else { last_index = P.index; last_weight = P.weight; }
@@ -588,7 +602,7 @@ int main(int argc, char **argv) {
   printf("@STAT states=%ld transitions=%ld executions=%ld violations=%ld replay_checks=%ld programs=%ld programs_reaching_fixpoint=%ld differential_runs=%ld\n", T_states, T_trans, T_exec + T_diff, T_viol, T_redet, T_programs, T_fix, T_diff);
   for (auto &kv : g_sig_count) printf("@STAT viol[%s]=%ld\n", kv.first.c_str(), kv.second);
   for (auto &o : g_outcomes) printf("@OUTCOME %s\n", o.c_str());
-  printf("@INFO part %d/%d: family programs=%ld shapes=%zu (weight<=%d, composites<=%d, depth<=%d), explored here=%ld, history depth bound=%zu, deepest new state at depth %ld, last complete program #%ld\n", part, nparts, total, fam.shapes.size(), maxw, maxc, maxd, T_programs, depth, T_maxdepth, last_index);
+  printf("@INFO part %d/%d: family programs=%ld shapes=%zu (weight<=%d, composites<=%d, %d<=depth<=%d), explored here=%ld, history depth bound=%zu, deepest new state at depth %ld, last complete program #%ld\n", part, nparts, total, fam.shapes.size(), maxw, maxc, mind, maxd, T_programs, depth, T_maxdepth, last_index);
   fflush(stdout);
   return 0;
 }
